@@ -22,6 +22,18 @@ CHECKS = {
   "runtime monitoring: exhaustive enumeration of extension counts and differential header parsing against an independent reader; write monitor on every value the real merge routine produces",
   "All 65536 extension counts are executed through Header.Bytes/Parse/Skip and compared with an independent reader of the documented layout; differential accept/reject and split on ~10^6 random and near-valid byte strings; PutBasic on dirty buffers; every value written by the real merge routine over the C02 domain (stored values with 1-3 foreign extension blocks, foreign flag bits on incoming entries, padding on/off) is checked for well-formedness and for the id of the writing transaction.",
   "Trusted: hdr.Read (written from docs/schema-native.md).", "DESIGN.md section 6 C14"),
+ "C15": ("exploration",
+  "runtime monitoring of the real name builder/parser, of the sanitiser through a real SendOnce, and of a real Receiver on buckets with decoy names",
+  "Round-trip and chronological-order oracles over >10^5 generated names per run (every digit-rollover boundary class 1970..2262, +-1ns/1s neighbours, non-UTC locations), panic monitor on arbitrary strings, sanitiser observed through the name and metadata of real uploaded blobs, and a real Receiver run against buckets full of other databases' and malformed names.",
+  "Database names over the documented safe alphabet only. Trusted: Go's time package for the reference ordering.", "DESIGN.md section 6 C15"),
+ "C19": ("exploration",
+  "runtime differential monitoring of the real strategies inside real LMDB transactions against a map model driven by a scripted decision-table iterator",
+  "Update, IterUpdate and EmptyPut are executed in real LMDB write transactions with a scripted iterator (keep/replace/delete/append-to-argument per key); the DBI read back in LMDB's own order must equal a map model. Exhaustive over all status x decision assignments for 4 (quick) / 5 (thorough) keys x byte, 4-byte and 8-byte integer key sets, plus random templates up to 5000 keys and disorder (swapped, duplicated, shuffled input).",
+  "Iterator honours the interface contract; little-endian host.", "DESIGN.md section 6 C19"),
+ "C20": ("exploration",
+  "runtime monitoring of the real dupsort encode/decode (through guarded accessors) and of real SendOnce/LoadOnce mirror cycles on MDB_DUPSORT DBIs with a pair-multiset oracle",
+  "Adversarial pairs and real dupsort DBI contents go through the real encoder/decoder (round trip, key length, strictly increasing unique keys or refusal); change histories on a real dupsort DBI are mirrored by a real Syncer with dupsort_hack and the application's pair set must stay exactly what the application wrote (or the step must fail with the LMDB untouched); blobs must state transform and original flags; receivers without the hack / inconsistent snapshots must be refused with an unchanged LMDB.",
+  "LMDB limits dupsort data items to 511 bytes and rejects empty duplicates; the generator stays inside that.", "DESIGN.md section 6 C20"),
 }
 
 # properties not yet claimed (kept current)
